@@ -29,7 +29,7 @@ RULE = (
     "node, or a dispatch through a base-class method; distinct = distinct (tree fingerprint, rule set)"
 )
 ASSUMPTIONS = ["CPython's __mro__ is the reference for 'nearest class in its MRO'"]
-MUST_SEE = ["raised_BoomAttr", "raised_BoomKey", 
+MUST_SEE = ["tuple_wider_than_256", "rules_attached_after_class_creation", "raised_BoomAttr", "raised_BoomKey", 
     "remove_first", "remove_middle", "remove_last", "remove_all", "remove_single_optional", "unchanged_subtree_under_changed_root",
     "strict_base_only_generic", "raise_below_depth2", "dispatch_second_base", "unchanged_returns_self", "validate_mismatch_raised",
     "validate_ok", "frames_checked", "derived_visitor_after_base_used",
@@ -147,6 +147,12 @@ def run_shard(ctx):
         rng = ctx.rng(case)
         tg = G.TreeGen(rng, U, max_nodes=rng.choice([5, 12, 25]), max_depth=6, max_width=5, share=0.1 if case % 4 == 0 else 0.0, twin=0.2, p_origin=0.3, hostile=0.0)
         s = tg.tree()
+        if case % 20 == 3:
+            # tuples far wider than anything small-integer caches or chunked loops cover
+            wide = S(f"{P}List", {}, {"items": tuple(S(rng.choice([f"{P}Leaf", f"{P}Leaf2", f"{P}Name"]), {"v": i}) for i in range(rng.choice([257, 300, 520])))})
+            other = S(f"{P}Call", {}, {"args": tuple(S(f"{P}Leaf", {"v": 1000 + i}) for i in range(260)), "kwargs": (S(f"{P}Leaf2", {"v": 5}),)})
+            s = S(f"{P}Stmt", {}, {"body": (wide, S(f"{P}Un", {}, {"child": other}))})
+            ctx.count("tuple_wider_than_256")
         memo = {}
         root = build(U, s, memo)
         pos = preorder(U, s)
@@ -365,7 +371,14 @@ def run_shard(ctx):
         tns["generic_visit"] = gv
         if rng.random() < 0.5:
             ASTTransformVisitor().transform(root)  # the plain base visitor sees every class first
-        TV = type("TV", (ASTTransformVisitor,), tns)
+        if rng.random() < 0.3:
+            # the rules become methods of the visitor class after the class was created
+            TV = type("TV", (ASTTransformVisitor,), {})
+            for name_, fn_ in tns.items():
+                setattr(TV, name_, fn_)
+            ctx.count("rules_attached_after_class_creation")
+        else:
+            TV = type("TV", (ASTTransformVisitor,), tns)
         snap = frame_of(U, root)
         input_ids = set(snap)
         ctx.evaluations += 1
